@@ -209,6 +209,9 @@ func (s *Sim) mstep(kind string, dg *Dgram, f func()) {
 	ctx.Reqs = append([]*NLReq(nil), s.kern.reqLog[ctx.reqFrom:]...)
 	ctx.KReps = append([]*KReport(nil), s.kern.reports[ctx.repFrom:]...)
 	ctx.post = s.peek()
+	if s.heldReq != nil && kind != "adv" {
+		s.heldLastChange = s.since()
+	}
 	if s.repTotal != repBefore && kind == "deliver" {
 		ctx.Foreign = true
 	}
